@@ -9,7 +9,7 @@
     state digest (SHA-256 of the pickle) of an idle bandit and of the policy tuples it was built from must not
     change; it is checked after every single call on the others, so the witness names the call that leaked.
 
-As built: Scenario extras: warm starts with an exact tie between trained arms (string labels), trees created by add_arm and trained on tie-rich data, LinTS on huge nearly collinear contexts, bystander bandits that add / remove arms although a distribution is configured; hostile neighbours (same training data, arm features one coordinate off by one, values -1 / -2).
+As built: Scenario extras: warm starts with an exact tie between trained arms (string labels), trees created by add_arm and trained on tie-rich data, LinTS on huge nearly collinear contexts, bystander bandits that add / remove arms although a distribution is configured; hostile neighbours (same training data, arm features one coordinate off by one, values -1 / -2); in every second case the scenario is replayed while mirror bandits (other seed, same call shapes) are used concurrently from other threads of the caller (switch interval 1 microsecond).
 """
 from mon import env
 import copy
@@ -32,8 +32,8 @@ RULE = ("48 policy combinations x seeds {0, 7, 123456, 2^31-1, random} x scenari
         "invariant after every call on the other bandits. Non-trivial = scenario of a randomised policy, or one sharing a "
         "policy-tuple object with an interleaved bandit; distinct = (combo, seed, labels, scenario skeleton)")
 BUDGET = {"quick": {"cases": 144, "shards": 16}, "thorough": {"cases": 48 * 12, "shards": 16, "wall_s": 3600}}
-MIN = {"quick": {"evaluations": 200, "nontrivial": 40, "counters": {"fresh_interpreters": 100, "idle_digest_checks": 500}},
-       "thorough": {"evaluations": 1500, "nontrivial": 250, "counters": {"fresh_interpreters": 1000, "idle_digest_checks": 3000}}}
+MIN = {"quick": {"evaluations": 200, "nontrivial": 40, "counters": {"fresh_interpreters": 100, "idle_digest_checks": 500, "concurrent_replays": 100}},
+       "thorough": {"evaluations": 1500, "nontrivial": 250, "counters": {"fresh_interpreters": 1000, "idle_digest_checks": 3000, "concurrent_replays": 600}}}
 ASSUMPTIONS = ["OMP/BLAS threads pinned to 1 (k-means reductions are not run-to-run deterministic otherwise)",
                "state hidden in C extensions is not observable by the digest invariant"]
 
@@ -59,6 +59,45 @@ def child(spec, hashseed):
         return None, "timeout"
     finally:
         os.unlink(sp)
+
+
+def concurrent_twin(cfg, ops, mirrors, ref, ctx, repeats):
+    """replays the scenario `repeats` times while every mirror runs its own calls in a loop in its own thread"""
+    import threading
+    from mon import sched
+    stop = threading.Event()
+    rounds = [0] * len(mirrors)
+
+    def loop(i, spec):
+        while not stop.is_set():
+            try:
+                m = scenario.build_with(spec["cfg"], *scenario.make_policy_objects(spec["cfg"]))
+                for op in spec["ops"]:
+                    gen.run_ops(m, [op])
+                    if stop.is_set():
+                        break
+            except Exception:  # noqa: BLE001 - a bystander's own trouble is not what this monitor judges
+                pass
+            rounds[i] += 1
+
+    threads = [threading.Thread(target=loop, args=(i, sp), daemon=True) for i, sp in enumerate(mirrors)]
+    diff = None
+    with sched.FastSwitch(1e-6):
+        for t in threads:
+            t.start()
+        try:
+            for _ in range(repeats):
+                _, out = scenario.run_interleaved(cfg, ops, [])
+                ctx.count("concurrent_replays")
+                diff = twin.first_diff(json.loads(json.dumps(out)), ref)
+                if diff:
+                    break
+        finally:
+            stop.set()
+            for t in threads:
+                t.join(60)
+    ctx.count("concurrent_bystander_rounds", sum(rounds))
+    return diff
 
 
 def gen_other(rs, cfg, same_kind):
@@ -194,6 +233,28 @@ def run_case(rs, ctx):
         ctx.violation("%s seed=%d: a bandit that idled while other bandits (sharing its policy objects) were used differs from the "
                       "same scenario run alone: %s" % (gen.cfg_sig(cfg), seed, d), wit, kind="in_process_isolation|" + gen.cfg_sig(cfg))
         return
+    # (d) other bandits are used *at the same time* from other threads of the caller (a server answering several models):
+    # mirrors of the scenario (other seed, shifted data, identical call shapes) plus one unrelated bandit loop in their own
+    # threads while the scenario is replayed; the interpreter hands the GIL over every microsecond
+    if (ctx.index // 48 + ctx.index) % 2 == 0:
+        mirrors = []
+        for k_ in range(2):
+            mc = copy.deepcopy(cfg)
+            mc["seed"] = int(seed + 1 + k_)
+            mo = copy.deepcopy(ops)
+            for o in mo:
+                if o.get("X") is not None:
+                    o["X"] = [[v + 1.0 + k_ for v in row] for row in o["X"]]
+            mirrors.append({"cfg": mc, "ops": mo})
+        mirrors.append({"cfg": others[-1]["cfg"], "ops": others[-1]["ops"]})
+        if p == "none":
+            mirrors.append(copy.deepcopy(mirrors[0]))  # cheap policies: one more mirror and more replays
+        d = concurrent_twin(cfg, ops, mirrors, ref, ctx, repeats=(3 if ctx.tier == "quick" else 5) * (5 if p == "none" else 1))
+        ctx.ev()
+        if d:
+            ctx.violation("%s seed=%d: while other bandits were being used from other threads, the scenario gave other results "
+                          "than alone: %s" % (gen.cfg_sig(cfg), seed, d), wit, kind="concurrent_callers|" + gen.cfg_sig(cfg))
+            return
     # (b), (c) fresh interpreters
     runs = [("alone, PYTHONHASHSEED=0", {"cfg": cfg, "ops": ops, "others": []}, 0),
             ("interleaved with %d other bandits, PYTHONHASHSEED=%s" % (len(others), "1" if ctx.index % 2 else "random"),
